@@ -24,7 +24,13 @@
 //!       3 slow consumer + no-op closures in between.
 //!       | <batch>;<batch>;... end|hang     batch = runs "start+len" joined by '.', maximal runs of
 //!       consecutive tags (lossless run-length encoding of the received Vec).
+//!   Z <serial> <rounds> <concurrent>   end-to-end (the channel inside the driver, between the metadata worker
+//!       and the cluster worker): a real Session on a mocknode cluster; every round adds a node to the mock
+//!       cluster and issues <concurrent> Session::refresh_metadata calls at once.
+//!       | <completed>/<ok>/<nodes the session's cluster state shows>/<nodes of the mock>,...   one token per round
+use scylla::client::session_builder::SessionBuilder;
 use scylla::cluster::metadata::verif_merge_channel as hook;
+use vh::mocknode as mock;
 use std::future::Future;
 use std::pin::Pin;
 use std::sync::atomic::{AtomicUsize, Ordering};
@@ -251,6 +257,53 @@ fn run_stress(n: u64, mode: u64, seed: u64) -> String {
     }
 }
 
+async fn run_e2e(serial: u64, rounds: usize, concurrent: usize) -> Result<String, String> {
+    let spec = mock::ClusterSpec::uniform("c19", &[("dc1", 1)], 1, 4, 2).with_keyspace(mock::KeyspaceDef::simple("ks", 1));
+    let cluster = mock::MockCluster::start(spec).await.map_err(|e| format!("mock start: {e}"))?;
+    let session = Arc::new(
+        SessionBuilder::new()
+            .known_node_addr(cluster.contact_point(0))
+            .connection_timeout(Duration::from_secs(5))
+            .build()
+            .await
+            .map_err(|e| format!("session: {e}"))?,
+    );
+    let mut r = Rng::new(serial);
+    let mut toks = Vec::new();
+    for _ in 0..rounds {
+        let idx = cluster.spec().nodes.len();
+        let node = mock::NodeSpec {
+            host_id: mock::host_id_for(idx),
+            dc: "dc1".into(),
+            rack: "r1".into(),
+            tokens: (0..4).map(|_| r.i64()).collect(),
+            nr_shards: 2,
+            msb_ignore: 12,
+            metadata_id_ext: None,
+        };
+        cluster.add_node(node).await.map_err(|e| format!("add_node: {e}"))?;
+        let mut tasks = Vec::new();
+        for _ in 0..concurrent {
+            let s = session.clone();
+            tasks.push(tokio::spawn(async move { tokio::time::timeout(Duration::from_secs(30), s.refresh_metadata()).await }));
+        }
+        let (mut completed, mut ok) = (0, 0);
+        for t in tasks {
+            if let Ok(Ok(res)) = t.await {
+                completed += 1;
+                if res.is_ok() {
+                    ok += 1;
+                }
+            }
+        }
+        let seen = session.get_cluster_state().get_nodes_info().len();
+        toks.push(format!("{:x}/{:x}/{:x}/{:x}", completed, ok, seen, cluster.spec().nodes.len()));
+    }
+    drop(session);
+    cluster.shutdown();
+    Ok(if toks.is_empty() { "-".into() } else { toks.join(",") })
+}
+
 fn run_case(case: &str) -> String {
     let f: Vec<&str> = case.split_whitespace().collect();
     match f[0] {
@@ -262,6 +315,18 @@ fn run_case(case: &str) -> String {
                 return "error bad-parameters".into();
             }
             run_stress(n, mode, serial)
+        }
+        "Z" if f.len() == 4 => {
+            let h = |s: &str| u64::from_str_radix(s, 16).unwrap();
+            let (serial, rounds, concurrent) = (h(f[1]), h(f[2]) as usize, h(f[3]) as usize);
+            if rounds > 64 || concurrent > 256 {
+                return "error bad-parameters".into();
+            }
+            let rt = tokio::runtime::Builder::new_multi_thread().worker_threads(4).enable_all().build().unwrap();
+            match rt.block_on(run_e2e(serial, rounds, concurrent)) {
+                Ok(s) => s,
+                Err(e) => format!("error e2e {}", e.replace(' ', "_")),
+            }
         }
         _ => "error unknown-case".into(),
     }
@@ -320,11 +385,11 @@ impl Gen {
     }
 }
 
-fn enumerate(out: &mut Out, len: usize, max_noops: u32, min_noops: u32) {
-    fn rec(out: &mut Out, g: Gen, s: &mut String, len: usize, max_noops: u32, min_noops: u32) {
+fn enumerate(out: &mut Out, len: usize, max_noops: u32, min_noops: u32, min_len: usize) {
+    fn rec(out: &mut Out, g: Gen, s: &mut String, len: usize, max_noops: u32, min_noops: u32, min_len: usize) {
         let ops = g.ops(max_noops);
         if s.len() == len || ops.is_empty() {
-            if g.noops >= min_noops && !s.is_empty() {
+            if g.noops >= min_noops && !s.is_empty() && s.len() >= min_len {
                 let c = format!("X {}", s);
                 let o = run_case(&c);
                 out.case(&c, &o);
@@ -335,12 +400,12 @@ fn enumerate(out: &mut Out, len: usize, max_noops: u32, min_noops: u32) {
             let mut g2 = g;
             g2.apply(op);
             s.push(op);
-            rec(out, g2, s, len, max_noops, min_noops);
+            rec(out, g2, s, len, max_noops, min_noops, min_len);
             s.pop();
         }
     }
     let mut s = String::new();
-    rec(out, Gen::new(), &mut s, len, max_noops, min_noops);
+    rec(out, Gen::new(), &mut s, len, max_noops, min_noops, min_len);
 }
 
 fn main() {
@@ -357,10 +422,11 @@ fn main() {
     let thorough = a.tier == "thorough";
     // exhaustive part (only maximal scripts are written: the observations of every prefix are in them)
     if thorough {
-        enumerate(&mut out, 14, 1, 0); // every script up to length 14 with at most one no-op closure
-        enumerate(&mut out, 11, 99, 2); // plus up to length 11 with any number of no-op closures
+        enumerate(&mut out, 14, 1, 0, 0); // every script up to length 14 with at most one no-op closure
+        enumerate(&mut out, 11, 99, 2, 0); // plus up to length 11 with any number of no-op closures
     } else {
-        enumerate(&mut out, 10, 99, 0); // every script up to length 10
+        enumerate(&mut out, 10, 99, 0, 0); // every script up to length 10
+        enumerate(&mut out, 12, 0, 0, 11); // plus lengths 11 and 12 without the no-op closure
     }
     // seeded long scripts
     let mut r = Rng::new(a.seed);
@@ -403,6 +469,14 @@ fn main() {
         let mode = k % 4;
         let n = total / cases;
         let c = format!("S {:x} {:x} {:x}", serial, n, mode);
+        let o = run_case(&c);
+        out.case(&c, &o);
+    }
+    // end-to-end: requested metadata refreshes are answered and the published state is the latest topology
+    let z_cases: u64 = if thorough { 12 } else { 3 };
+    for k in 0..z_cases {
+        serial += 1;
+        let c = format!("Z {:x} {:x} {:x}", serial, 3 + k % 4, [1u64, 4, 16][(k % 3) as usize]);
         let o = run_case(&c);
         out.case(&c, &o);
     }
